@@ -63,6 +63,9 @@ const (
 type Fault struct {
 	At   int    `json:"at"`
 	Kind string `json:"kind"`
+	// AndCommit: additionally, the next top-level Commit fails (e.g. a deadlock
+	// at call At, then a failing COMMIT of the retried attempt)
+	AndCommit bool `json:"andCommit,omitempty"`
 }
 
 // ErrInjected is the generic injected error.
@@ -97,9 +100,12 @@ type Mem struct {
 	fault   *Fault
 	calls   int
 	fired   bool
-	trace   []Call
-	nTx     int
-	cancel  func()
+	// commit fault: armed / delivered
+	commitArmed bool
+	commitFired bool
+	trace       []Call
+	nTx         int
+	cancel      func()
 	// optional SQL side (see sqlfake.go)
 	sys    map[string]*sysRow
 	sqldb  *sql.DB
@@ -127,9 +133,17 @@ func (m *Mem) NewStore(l ledger.Ledger) ledgercontroller.Store {
 	m.registerLedger(l)
 	return &Store{m: m, ls: m.state(l.Name), l: l, name: "root"}
 }
-func (m *Mem) InjectFault(f Fault)     { m.fault = &f; m.calls = 0; m.fired = false }
-func (m *Mem) ClearFault()             { m.fault = nil; m.calls = 0 }
-func (m *Mem) FaultFired() bool        { return m.fired }
+func (m *Mem) InjectFault(f Fault) {
+	m.calls, m.fired, m.commitFired = 0, false, false
+	m.commitArmed = f.Kind == FaultCommit || f.AndCommit
+	if f.Kind == FaultCommit {
+		m.fault = nil
+	} else {
+		m.fault = &f
+	}
+}
+func (m *Mem) ClearFault()             { m.fault = nil; m.calls = 0; m.commitArmed = false }
+func (m *Mem) FaultFired() bool        { return m.fired || m.commitFired }
 func (m *Mem) Trace() []Call           { return append([]Call(nil), m.trace...) }
 func (m *Mem) ResetTrace()             { m.trace = nil }
 func (m *Mem) SetNow(t libtime.Time)   { m.now = t }
@@ -223,7 +237,7 @@ func (s *Store) enter(ctx context.Context, method, args string) (idx int, err er
 	m.trace = append(m.trace, Call{N: len(m.trace) + 1, H: s.name, M: method, A: args})
 	idx = len(m.trace) - 1
 	m.calls++
-	if m.fault != nil && !m.fired && m.fault.Kind != FaultCommit && m.calls == m.fault.At {
+	if m.fault != nil && !m.fired && m.calls == m.fault.At {
 		m.fired = true
 		switch m.fault.Kind {
 		case FaultDeadlock:
@@ -362,10 +376,16 @@ func (s *Store) Commit(ctx context.Context) error {
 		s.closeSQL(false)
 		return set(sql.ErrTxDone)
 	}
-	injected := m.fault != nil && !m.fired &&
-		((m.fault.Kind == FaultCommit && s.depth == 0) || (m.fault.Kind != FaultCommit && m.calls == m.fault.At))
-	if injected {
-		m.fired = true
+	callFault := m.fault != nil && !m.fired && m.calls == m.fault.At
+	commitFault := !callFault && m.commitArmed && !m.commitFired && s.depth == 0
+	if callFault || commitFault {
+		kind := FaultCommit
+		if callFault {
+			m.fired = true
+			kind = m.fault.Kind
+		} else {
+			m.commitFired = true
+		}
 		s.done = true
 		s.closeSQL(false)
 		if s.depth == 0 {
@@ -373,7 +393,7 @@ func (s *Store) Commit(ctx context.Context) error {
 		} else {
 			s.phys.aborted, s.phys.abortedDepth = true, s.depth-1
 		}
-		switch m.fault.Kind {
+		switch kind {
 		case FaultDeadlock:
 			return set(postgres.ErrDeadlockDetected)
 		case FaultCancel:
@@ -426,7 +446,7 @@ func (s *Store) Rollback(ctx context.Context) error {
 		s.phys.aborted = false // ROLLBACK TO SAVEPOINT
 	}
 	s.closeSQL(false)
-	if m.fault != nil && !m.fired && m.fault.Kind != FaultCommit && m.calls == m.fault.At {
+	if m.fault != nil && !m.fired && m.calls == m.fault.At {
 		// a failing ROLLBACK cannot make anything durable: the work is discarded anyway
 		m.fired = true
 		switch m.fault.Kind {
